@@ -75,6 +75,8 @@ pub(crate) mod timing;
 pub(crate) mod validation;
 pub(crate) mod value_flags;
 pub(crate) mod verification;
+#[cfg(feature = "verif")]
+pub mod verif_api;
 pub(crate) mod version_script;
 
 use crate::elf::Elf;
